@@ -6,6 +6,8 @@
 //	    deterministic order that Go itself may legally pick) with a presence
 //	    re-check
 //	T3  `go func(){...}()` -> simsync.Go("<site>", func(){...})
+//	T5  a scheduling point `simsync.AtomicPoint()` before every statement that calls a
+//	    method of a sync/atomic type (off unless the world sets Kernel.AtomicPoints)
 //	T4  &T{...} of struct types that are used as pointer map keys ->
 //	    simsync.Tag(&T{...}) (gives pointers a reproducible order)
 //
@@ -29,7 +31,7 @@ import (
 
 const simsyncPath = "github.com/buildbarn/bb-remote-execution/pkg/verifsim/simsync"
 
-type stats struct{ mutex, ranges, gos, tags, skipped int }
+type stats struct{ mutex, ranges, gos, tags, skipped, atomics int }
 
 func main() {
 	if len(os.Args) < 3 {
@@ -93,7 +95,7 @@ func main() {
 			}
 		}
 	}
-	fmt.Printf("simrewrite: mutexes=%d map-ranges=%d go-stmts=%d tags=%d skipped=%d\n", st.mutex, st.ranges, st.gos, st.tags, st.skipped)
+	fmt.Printf("simrewrite: mutexes=%d map-ranges=%d go-stmts=%d tags=%d atomic-points=%d skipped=%d\n", st.mutex, st.ranges, st.gos, st.tags, st.atomics, st.skipped)
 }
 
 func collectKeyTypes(t types.Type, out map[*types.TypeName]bool) {
@@ -174,6 +176,9 @@ func rewriteFile(p *packages.Package, f *ast.File, name string, keyTypes map[*ty
 	needImport := false
 	counter := 0
 	rel := filepath.Base(name)
+	if insertAtomicPoints(info, f, st) {
+		changed, needImport = true, true
+	}
 	astutil.Apply(f, func(c *astutil.Cursor) bool {
 		switch n := c.Node().(type) {
 		case *ast.SelectorExpr:
@@ -305,4 +310,89 @@ func isTagCall(call *ast.CallExpr) bool {
 	}
 	id, ok := sel.X.(*ast.Ident)
 	return ok && id.Name == "simsync" && sel.Sel.Name == "Tag"
+}
+
+// isAtomicMethodCall: x.Load(), x.Add(..), ... where x has a sync/atomic type.
+func isAtomicMethodCall(info *types.Info, call *ast.CallExpr) bool {
+	sel, ok := call.Fun.(*ast.SelectorExpr)
+	if !ok {
+		return false
+	}
+	t := info.TypeOf(sel.X)
+	if t == nil {
+		return false
+	}
+	if p, ok := t.(*types.Pointer); ok {
+		t = p.Elem()
+	}
+	named, ok := t.(*types.Named)
+	if !ok || named.Obj().Pkg() == nil || named.Obj().Pkg().Path() != "sync/atomic" {
+		return false
+	}
+	switch sel.Sel.Name {
+	case "Load", "Store", "Add", "Swap", "CompareAndSwap", "And", "Or":
+		return true
+	}
+	return false
+}
+
+// insertAtomicPoints puts `simsync.AtomicPoint()` in front of every statement
+// (directly inside a block or a case clause) that contains an atomic call.
+func insertAtomicPoints(info *types.Info, f *ast.File, st *stats) bool {
+	type site struct {
+		parent ast.Node
+		stmt   ast.Stmt
+	}
+	var sites []site
+	seen := map[ast.Stmt]bool{}
+	var stack []ast.Node
+	ast.Inspect(f, func(n ast.Node) bool {
+		if n == nil {
+			stack = stack[:len(stack)-1]
+			return true
+		}
+		stack = append(stack, n)
+		call, ok := n.(*ast.CallExpr)
+		if !ok || !isAtomicMethodCall(info, call) {
+			return true
+		}
+		for i := len(stack) - 1; i > 0; i-- {
+			stmt, ok := stack[i].(ast.Stmt)
+			if !ok {
+				continue
+			}
+			if _, isFuncLit := stack[i].(*ast.BlockStmt); isFuncLit {
+				continue
+			}
+			switch stack[i-1].(type) {
+			case *ast.BlockStmt, *ast.CaseClause, *ast.CommClause:
+				if !seen[stmt] {
+					seen[stmt] = true
+					sites = append(sites, site{stack[i-1], stmt})
+				}
+				return true
+			}
+		}
+		return true
+	})
+	for _, s := range sites {
+		point := &ast.ExprStmt{X: &ast.CallExpr{Fun: &ast.SelectorExpr{X: ast.NewIdent("simsync"), Sel: ast.NewIdent("AtomicPoint")}}}
+		var list *[]ast.Stmt
+		switch p := s.parent.(type) {
+		case *ast.BlockStmt:
+			list = &p.List
+		case *ast.CaseClause:
+			list = &p.Body
+		case *ast.CommClause:
+			list = &p.Body
+		}
+		for i, x := range *list {
+			if x == s.stmt {
+				*list = append((*list)[:i], append([]ast.Stmt{point}, (*list)[i:]...)...)
+				st.atomics++
+				break
+			}
+		}
+	}
+	return len(sites) > 0
 }
